@@ -4,11 +4,13 @@ package main
 
 import (
 	"go/ast"
+	"go/token"
 	"go/types"
 	"sort"
 	"strings"
 
 	"golang.org/x/tools/go/ssa"
+	"golang.org/x/tools/go/types/typeutil"
 )
 
 func init() {
@@ -142,9 +144,14 @@ func checkC02(c *Ctx) {
 	}
 
 	// ---- C02.siblings ----
-	rs := c.Rule("C02.siblings", "every parenthesisation decision in package clause looks at the SQL text of both raw unit types (Expr and NamedExpr)", 2)
-	exprSQL := p.Field(p.Named(pkgClause, "Expr"), "SQL")
-	nexprSQL := p.Field(p.Named(pkgClause, "NamedExpr"), "SQL")
+	// Every place that decides parenthesisation by looking for AND/OR in the raw SQL text of some
+	// subject expression must do so for both raw unit types (Expr and NamedExpr) of that subject,
+	// and must look for both connectives.
+	rs := c.Rule("C02.siblings", "each parenthesisation decision covers both raw unit types (Expr, NamedExpr) of its subject and both connectives (AND, OR)", 4)
+	exprT := p.Named(pkgClause, "Expr")
+	nexprT := p.Named(pkgClause, "NamedExpr")
+	exprSQL := p.Field(exprT, "SQL")
+	nexprSQL := p.Field(nexprT, "SQL")
 	andC := p.Lookup(pkgClause, "AndWithSpace")
 	orC := p.Lookup(pkgClause, "OrWithSpace")
 	readsSQL := func(fn *ssa.Function) (bool, bool) {
@@ -163,37 +170,126 @@ func checkC02(c *Ctx) {
 		})
 		return e, n
 	}
+	type group struct {
+		f        *FuncSrc
+		subject  string
+		pos      token.Pos
+		expr, nm bool
+		and, or  bool
+	}
+	groups := map[string]*group{}
 	for _, f := range p.FuncsOf(pkgClause) {
-		if f.Parent != nil {
+		if f.Parent != nil || f.Obj == nil {
 			continue
 		}
 		info := f.Pkg.TypesInfo
-		decides := false
+		parents := parentMap(f.Body)
 		for _, call := range callsIn(f) {
-			if calleeName(info, call) == "strings.Contains" && len(call.Args) == 2 {
-				if id := identOf(call.Args[1]); id != nil {
-					if o := info.Uses[id]; o == andC || o == orC {
-						decides = true
+			if calleeName(info, call) != "strings.Contains" || len(call.Args) != 2 {
+				continue
+			}
+			cid := identOf(call.Args[1])
+			if cid == nil || (info.Uses[cid] != andC && info.Uses[cid] != orC) {
+				continue
+			}
+			// the raw text inspected: follow locals to <x>.SQL or to a helper result
+			var subject string
+			var cov struct{ e, n bool }
+			var follow func(e ast.Expr, depth int)
+			follow = func(e ast.Expr, depth int) {
+				if depth > 6 || e == nil {
+					return
+				}
+				e = unparen(e)
+				switch x := e.(type) {
+				case *ast.CallExpr:
+					name := calleeName(info, x)
+					if strings.HasPrefix(name, "strings.") && len(x.Args) >= 1 {
+						follow(x.Args[0], depth+1)
+						return
+					}
+					// helper of the package returning the raw text of its argument
+					if fn, _ := typeutil.Callee(info, x).(*types.Func); fn != nil && fn.Pkg() != nil && fn.Pkg().Path() == pkgClause && len(x.Args) == 1 {
+						he, hn := readsSQL(p.SSAFunc(fn))
+						cov.e, cov.n = cov.e || he, cov.n || hn
+						subject = canon(info, x.Args[0])
+					}
+				case *ast.Ident:
+					for _, d := range localDefs(f, x.Name, call.Pos()) {
+						follow(d.rhs, depth+1)
+					}
+				case *ast.SelectorExpr:
+					if x.Sel.Name != "SQL" {
+						return
+					}
+					isE, isN := fieldSel(info, x, exprSQL), fieldSel(info, x, nexprSQL)
+					holder, ok := unparen(x.X).(*ast.Ident)
+					if !ok || (!isE && !isN) {
+						return
+					}
+					// how was the holder bound?
+					for _, d := range localDefs(f, holder.Name, call.Pos()) {
+						if ta, ok := unparen(d.rhs).(*ast.TypeAssertExpr); ok && ta.Type != nil {
+							subject = canon(info, ta.X)
+							cov.e, cov.n = cov.e || isE, cov.n || isN
+						}
+					}
+					if subject == "" {
+						// bound by a type switch clause
+						for cur := parents[call]; cur != nil; cur = parents[cur] {
+							if ts, ok := cur.(*ast.TypeSwitchStmt); ok {
+								if as, ok := ts.Assign.(*ast.AssignStmt); ok && len(as.Lhs) == 1 {
+									if id, ok := as.Lhs[0].(*ast.Ident); ok && id.Name == holder.Name {
+										if ta, ok := unparen(as.Rhs[0]).(*ast.TypeAssertExpr); ok {
+											subject = canon(info, ta.X) + "@switch" + itoa(int(ts.Pos()))
+											cov.e, cov.n = cov.e || isE, cov.n || isN
+										}
+									}
+								}
+							}
+						}
 					}
 				}
 			}
-		}
-		if !decides || f.Obj == nil {
-			continue
-		}
-		fn := p.SSAFunc(f.Obj)
-		c.Touch(f)
-		e, n := readsSQL(fn)
-		// static callees one level down (helpers like rawExprSQL)
-		forEachInstr(fn, func(owner *ssa.Function, in ssa.Instruction) {
-			if ci, ok := in.(ssa.CallInstruction); ok {
-				if sc := ci.Common().StaticCallee(); sc != nil && sc.Pkg != nil && sc.Pkg.Pkg.Path() == pkgClause {
-					e2, n2 := readsSQL(sc)
-					e, n = e || e2, n || n2
+			follow(call.Args[0], 0)
+			if subject == "" {
+				rs.Unknown(f.Name(), "decision site", call.Pos(), "cannot determine whose SQL text is inspected")
+				continue
+			}
+			// sites on the same subject inside the same innermost case clause belong together; a type switch on
+			// the subject itself groups its raw-type clauses
+			key := f.Name() + "|" + subject
+			if !strings.Contains(subject, "@switch") {
+				for cur := parents[call]; cur != nil; cur = parents[cur] {
+					if cc, ok := cur.(*ast.CaseClause); ok {
+						key += "|case@" + itoa(int(cc.Pos()))
+						break
+					}
 				}
 			}
-		})
-		rs.Check(e && n, f.Name(), "raw-SQL unit types", f.Body.Pos(), "decides on Expr.SQL and NamedExpr.SQL alike", "this function decides whether to parenthesise a raw condition by looking for AND/OR in its text, but only for "+rawKinds(e, n)+": the other raw form (with named arguments / with ?) is rendered without parentheses and NOT/AND bind to its first operand only")
+			g := groups[key]
+			if g == nil {
+				g = &group{f: f, subject: strings.Split(subject, "@switch")[0], pos: call.Pos()}
+				groups[key] = g
+			}
+			g.expr, g.nm = g.expr || cov.e, g.nm || cov.n
+			if info.Uses[cid] == andC {
+				g.and = true
+			} else {
+				g.or = true
+			}
+		}
+	}
+	var keys []string
+	for k := range groups {
+		keys = append(keys, k)
+	}
+	sort.Strings(keys)
+	for _, k := range keys {
+		g := groups[k]
+		c.Touch(g.f)
+		rs.Check(g.expr && g.nm, g.f.Name(), "raw unit types of "+g.subject, g.pos, "decides on Expr.SQL and NamedExpr.SQL alike", "the decision whether to parenthesise "+g.subject+" looks for AND/OR in its raw text only for "+rawKinds(g.expr, g.nm)+": the other raw form (named arguments vs ?) of the same unit is rendered without parentheses and neighbouring AND/OR/NOT bind to part of it")
+		rs.Check(g.and && g.or, g.f.Name(), "connectives looked for in "+g.subject, g.pos, "both AND and OR", "the parenthesisation decision for "+g.subject+" looks for only one of AND/OR in the raw text: a unit containing the other connective is not grouped")
 	}
 
 	// ---- C02.not-members ----
